@@ -466,6 +466,28 @@ def run_frontend(name, raw_lines, tbq, tmpdir=None, conv=None):
     return {'per': per, 'flat': flat, 'exc': exc, 'state': state}
 
 
+def run_resumed(raw_lines, tbq):
+    """ByteStream over ONE iterator of the lines, consumed by a for loop that is left after every delivery and entered
+    again.  -> res without per-line attribution."""
+    import pyais.stream as ps
+    q = ps.TagBlockQueue() if tbq else None
+    it = iter(list(raw_lines))
+    reader = ps.ByteStream(it, tbq=q)
+    flat, exc = [], None
+    try:
+        while True:
+            got = None
+            for s in reader:
+                got = s
+                break
+            if got is None:
+                break
+            flat.append((tok_delivered(got), attrs(got), got))
+    except Exception as e:   # noqa: BLE001
+        exc = type(e).__name__
+    return {'per': None, 'flat': flat, 'exc': exc, 'state': None}
+
+
 def lines_for(name, lines, term):
     """The byte strings handed to a front-end for a sequence of lines: the file-like and socket front-ends need a
     line terminator, the in-memory ones take the lines as they are (or with the same terminator)."""
@@ -799,6 +821,9 @@ def run_case(ctx, seq, label, term=b'', tbq=False, frontends=None, cache=None, t
     results = {}
     case = {'label': label, 'term': term.hex(), 'tbq': tbq, 'lines': [d['hex'] for d in seq]}
     scoped = in_scope(seq) if scoped is None else scoped
+    pairwise_only = label.startswith('pairwise-only')
+    if pairwise_only:
+        scoped = False
     spec_per = None
     if scoped and ctx.model is not None:
         # the oracles' inputs must lie inside the theorems' quantifier: the extracted, proved-sound WF check says so
@@ -841,7 +866,17 @@ def run_case(ctx, seq, label, term=b'', tbq=False, frontends=None, cache=None, t
             res2['per'] = None
             results['SocketStream/chunked'] = res2
             rep.case(('SocketStream/chunked', tbq, term, tuple(case['lines'])), kind='frontend:SocketStream/chunked')
-    if scoped and 'C07' in want and len(frontends) > 1:
+    if label.startswith('sequential') and 'ByteStream' in frontends and set(want) & {'C03', 'C07'}:
+        # iteration interrupted after every delivered message and resumed (`for ... break`, again `for ...`): the readers are
+        # at rest at those points, so the deliveries must be the same as for uninterrupted iteration
+        res3 = run_resumed(lines_for('ByteStream', lines, term), tbq)
+        results['ByteStream/resumed'] = res3
+        rep.case(('ByteStream/resumed', tbq, term, tuple(case['lines'])), kind='frontend:ByteStream/resumed')
+        if scoped and ctx.model is not None and 'C03' in want:
+            for comp, kind, text in oracle_c03(spec_per, res3, 'ByteStream/resumed'):
+                rep.violation({'entry': 'ByteStream/resumed', 'component': comp, 'kind': kind}, f'{text} [{label}]',
+                              {'seq': seq, 'term': term.hex(), 'tbq': tbq, 'frontend': 'ByteStream/resumed'})
+    if (scoped or pairwise_only) and 'C07' in want and len(frontends) > 1:
         for nm, comp, kind, text in oracle_c07(results):
             rep.violation({'entry': nm, 'component': comp, 'kind': kind}, f'{text} [{label}]',
                           {'seq': seq, 'term': term.hex(), 'tbq': tbq, 'frontend': nm, 'reference': frontends[0]})
@@ -856,6 +891,62 @@ def describe(seq):
     return c
 
 
+def many_in_flight(rng, n):
+    """n two-fragment messages on n distinct (sequence id, channel) slots, ALL in flight at the same time (first fragments,
+    then the second fragments in random order), followed by new messages that reuse some of the slots.  A bounded buffer,
+    an eviction policy or a cache only shows with many slots occupied at once."""
+    slots = [(sq, ch) for sq in [None] + list(range(10)) for ch in ['A', 'B', '1', '2', '']]
+    rng.shuffle(slots)
+    slots = slots[:n]
+    msgs = [make_message(rng, i, 2, sq, ch, bad_checksums=0) for i, (sq, ch) in enumerate(slots)]
+    firsts = [m[0] for m in msgs]
+    seconds = [m[1] for m in msgs]
+    rng.shuffle(firsts)
+    rng.shuffle(seconds)
+    seq = firsts + seconds
+    for j, (sq, ch) in enumerate(slots[:5]):
+        m = make_message(rng, n + j, 2, sq, ch, bad_checksums=0)
+        seq += [m[1], m[0]]
+    return seq
+
+
+def sequential_schedule(rng, k):
+    """k complete messages one after the other (no interleaving, nothing incomplete), with slots reused -- the readers
+    are at rest after every delivery, so iteration may be interrupted and resumed there."""
+    seq, used = [], []
+    for i in range(k):
+        nfrag = rng.choice([1, 2, 2, 3, 4])
+        if used and rng.random() < 0.5:
+            sq, ch = rng.choice(used)
+        else:
+            sq, ch = rng.choice(SEQS), rng.choice(CHANS)
+        if nfrag == 1:
+            sq = rng.choice([None, 0])
+        frs = make_message(rng, i, nfrag, sq, ch, bad_checksums=0.05)
+        if nfrag > 1:
+            used.append((sq, ch))
+        order = frs[:]
+        rng.shuffle(order)
+        seq += order
+    return seq
+
+
+def reuse_after_incomplete(rng):
+    """Valid sentences only, but a slot is used again although its previous message never completed (a fragment was
+    lost on the air): outside the well-formed schedules of C03, inside 'any sequence of input lines' of C07 -- only the
+    pairwise front-end agreement is demanded here."""
+    sq, ch = rng.choice([1, 2, 3, 9, None]), rng.choice(CHANS)
+    cases = []
+    for stale_cnt, keep, new_cnt in ((3, [2], 2), (3, [1], 2), (4, [3, 0], 2), (2, [1], 3), (5, [4], 4), (3, [2], 3)):
+        old = make_message(rng, 0, stale_cnt, sq, ch, bad_checksums=0)
+        new = make_message(rng, 1, new_cnt, sq, ch, bad_checksums=0)
+        other = make_message(rng, 2, 1, None, 'A')
+        order = new[:]
+        rng.shuffle(order)
+        cases.append([old[i] for i in keep] + [other[0], wrapper_line(rng)] + order + [make_message(rng, 3, 1, None, 'B')[0]])
+    return cases
+
+
 def generated_cases(ctx, n_random, n_out):
     """(label, seq, term, tbq) for a run: boundary content, random well-formed schedules, out-of-scope noise."""
     rng = ctx.rng
@@ -863,6 +954,13 @@ def generated_cases(ctx, n_random, n_out):
     for label, seq in boundary_schedules(rng):
         for tbq in (False, True):
             cases.append(('boundary:' + label, seq, rng.choice([b'', b'\n', b'\r\n']), tbq))
+    for n in ((21, 30) if ctx.quick else (21, 22, 30, 41, 55)):
+        cases.append(('many-in-flight', many_in_flight(rng, n), rng.choice([b'', b'\n']), False))
+    for _ in range(ctx.budget(4, 40)):
+        cases.append(('sequential', sequential_schedule(rng, rng.choice([2, 3, 5, 8])), rng.choice([b'', b'\n', b'\r\n']),
+                      rng.random() < 0.3))
+    for seq in reuse_after_incomplete(rng):
+        cases.append(('pairwise-only:reuse-after-incomplete', seq, rng.choice([b'', b'\n']), False))
     for i in range(n_random):
         k = rng.choice([1, 2, 3, 3, 4, 5, 6, 8])
         seq = gen_schedule(rng, k, force=[rng.choice([1, 9, 2, 3])] if i % 5 == 0 else None)
